@@ -183,6 +183,25 @@ Join(L, R, jt, on, dev) ==
                [] jt = "RIGHT" -> matched \o ro
                [] jt = "FULL"  -> matched \o lo \o ro)
 
+\* (B) what SQLiteModel emits for a FULL join (SQLite._emit_full_join_as_complex): the distinct key
+\* tuples of both sides (NULL keys included, as GROUP BY keeps them), LEFT JOINed to the left table
+\* and then to the right table.  Agrees with Join(.., "FULL", ..) unless a key is NULL: a NULL key
+\* tuple matches nothing, so the rows it came from are replaced by one all-NULL row.
+\* Requires identical key names on both sides (the code asserts this).
+SqliteFullJoin(L, R, on) ==
+  LET keys == [p \in 1..Len(on) |-> on[p][1]]
+      kl == Tbl(keys, [i \in 1..Len(L.rows) |-> RestrictTo(L.rows[i], keys)])
+      kr == Tbl(keys, [i \in 1..Len(R.rows) |-> RestrictTo(R.rows[i], keys)])
+      ku == Project(Tbl(keys, kl.rows \o kr.rows), <<>>, keys, {})
+      j1 == Join(ku, L, "LEFT", on, {})
+      j2 == Join(j1, R, "LEFT", on, {})
+  IN Tbl(JoinCols(L, R), j2.rows)
+SameNamedKeys(on) == Len(on) > 0 /\ \A p \in 1..Len(on) : on[p][1] = on[p][2]
+JoinDev(L, R, jt, on, dev) ==
+  IF jt = "FULL" /\ "sqlite_full_join_emulation" \in dev /\ SameNamedKeys(on)
+    THEN SqliteFullJoin(L, R, on)
+    ELSE Join(L, R, jt, on, dev)
+
 \* ---------------------------------------------------------------- concat_rows
 \* id = "" : no source column; else a new column holding 0 for rows of a, 1 for rows of b
 Concat(L, R, id) ==
